@@ -7,6 +7,7 @@ from .. import paths
 from ..core import FUNC, call_attr, calls_in, const, dotted, is_const, kwarg, norm, slice_parts, text, walk_local
 
 EXPLANATION = [
+    'C17.dlc-sink: DLC.on_uih_frame calls its consumer inside try/except Exception, so hostile data that makes the consumer raise cannot desynchronise the RFCOMM credit ledgers.',
     'C17.ack-bounded: an acknowledgement received on an ERTM channel is accepted only if it covers no more frames than are actually outstanding (same rule as C08.window), so a forged ReqSeq cannot move the acknowledged sequence number past what was sent and wedge the transmitter.',
     'C17.depth-balance: the SDP parser\'s nesting counter is restored on every normal exit of the recursive list parser (path counting).',
     'C17.feed-contained: every site that pushes received bytes into the HCI packet parser is inside try/except InvalidPacketError that lets the transport continue, or is a named plain event-loop callback where the escaping exception is only logged.',
@@ -582,7 +583,29 @@ def ack_bounded(ctx):
     c08.window(ctx, rule='C17.ack-bounded')
 
 
+def dlc_sink(ctx):
+    """The RFCOMM data link contains what its consumer raises (shared with C20.progress)."""
+    R, p = ctx.r, ctx.p
+    rule = 'C17.dlc-sink'
+    uih = p.find('bumble.rfcomm.DLC.on_uih_frame')
+    if uih is None:
+        R.bad(rule, 'bumble.rfcomm.DLC.on_uih_frame', 'anchor missing')
+        return
+    sinks = [c for c in calls_in(uih) if dotted(c.func) == 'self._sink']
+    ok = bool(sinks)
+    for c in sinks:
+        a, prev, cont = getattr(c, '_parent', None), c, False
+        while a is not None and a is not uih:
+            if isinstance(a, ast.Try) and any(prev is s_ or any(prev is x for x in ast.walk(s_)) for s_ in a.body):
+                cont = cont or any(h.type is None or text(h.type).split('.')[-1] in ('Exception', 'BaseException') for h in a.handlers)
+            prev, a = a, getattr(a, '_parent', None)
+        ok = ok and cont
+    R.check(ok, rule, 'bumble.rfcomm.DLC.on_uih_frame | sink call contained', 'inside try/except Exception: the frame is still accounted for and credits are returned',
+            'a consumer that raises on hostile data skips the credit accounting of the data link: after a few such frames the link is wedged', p.loc(uih))
+
+
 RULES = [
+    ('C17.dlc-sink', dlc_sink),
     ('C17.ack-bounded', ack_bounded),
     ('C17.depth-balance', depth_balance),
     ('C17.feed-contained', feed_contained),
